@@ -315,6 +315,7 @@ func rewriteFile(o Options, c *Census, p *packages.Package, f *ast.File, fname s
 		return true
 	})
 	mapN := 0
+	mapsKept := false
 	ast.Inspect(f, func(n ast.Node) bool {
 		switch x := n.(type) {
 		case *ast.BlockStmt:
@@ -429,6 +430,25 @@ func rewriteFile(o Options, c *Census, p *packages.Package, f *ast.File, fname s
 				fe.coopRT = true
 			}
 		case *ast.CallExpr:
+			// maps.Keys(m) / maps.Values(m) / maps.All(m)  ->  rt.MapsKeys(m, site) ...
+			if sel, ok := x.Fun.(*ast.SelectorExpr); ok && o.MapRanges && len(x.Args) == 1 {
+				if id, ok := sel.X.(*ast.Ident); ok {
+					if pn, ok := p.TypesInfo.Uses[id].(*types.PkgName); ok && pn.Imported().Path() == "maps" {
+						if fn := map[string]string{"Keys": "MapsKeys", "Values": "MapsValues", "All": "MapsAll"}[sel.Sel.Name]; fn != "" {
+							st := site(x.Pos())
+							c.MapSites = append(c.MapSites, MapSite{Site: st, KeyType: "maps." + sel.Sel.Name, Stable: true})
+							fe.repl(off(sel.Pos()), off(sel.End())-off(sel.Pos()), rtAlias+"."+fn)
+							fe.ins(off(x.Rparen), ", "+strconv.Quote(st))
+							needRT = true
+							if !mapsKept {
+								// keep the import used even if this was its only use
+								mapsKept = true
+								fe.ins(len(src), "\nvar _ = "+id.Name+".Clone[map[int]int]\n")
+							}
+						}
+					}
+				}
+			}
 			if id, ok := x.Fun.(*ast.Ident); ok && o.CoopGo && o.CoopChans {
 				if b, isB := p.TypesInfo.Uses[id].(*types.Builtin); isB {
 					switch b.Name() {
